@@ -82,6 +82,7 @@ class Sim {
   bool has(uint16_t idx, uint8_t sub) const;
   void init();                  // builds the dictionary array and calls CONodeInit
   void init_timer_only();       // minimal node: timer manager + timer driver only (C07/C08)
+  void init_bare();             // node memory only (poisoned) + driver table + node id: dictionary-level tests (C06)
   void start();
   CO_ERR init_err = CO_ERR_NONE;
 
